@@ -31,6 +31,19 @@ from qce_circuit.structure.registry_repetition import (
 )
 
 
+class _IdentityTransferLookup(dict):
+    """Transfer lookup that maps every operation to itself. Used to duplicate a relation link."""
+
+    def __contains__(self, item) -> bool:
+        return True
+
+    def __getitem__(self, item):
+        return item
+
+    def get(self, key, default=None):
+        return key
+
+
 @dataclass(frozen=True)
 class CircuitNode(ICircuitNode):
     """
@@ -304,8 +317,10 @@ class CircuitCompositeOperation(ICircuitCompositeOperation):
         result: List[ICircuitOperation] = []
         for node in self._circuit_graph.get_node_iterator():
             # Apply relation-link head (Important for nested composite-operations)
-            if not node.operation.has_relation and node.operation.relation_link is not self.relation_link:
-                node.operation.relation_link = self.relation_link
+            if not node.operation.has_relation and self.has_relation:
+                # Hand over an own (duplicate) link instance, sharing the link object would make a nested composite
+                # operation equal (by value) to its parent and siblings, which confuses the transfer lookup used for copying.
+                node.operation.relation_link = self.relation_link.copy(relation_transfer_lookup=_IdentityTransferLookup())
                 clear_start_time_cache()  # Relation link changes
             # Extend decomposed operation list
             result.extend(node.operation.decomposed_operations())
